@@ -72,7 +72,7 @@ def sm_random_history(ctx, n):
     for _ in range(n):
         r = ctx.rng.random()
         if r < 0.3:
-            ops.append(sm_op(ctx.rng.choice(["extend", "iadd", "add"]), it=it()))
+            ops.append(sm_op(ctx.rng.choice(["extend", "iadd", "add", "extend", "iadd", "add", "radd"]), it=it()))
         elif r < 0.4:
             ops.append(sm_op("append", e=ctx.rng.choice(good + [0])))
         elif r < 0.5:
@@ -281,7 +281,7 @@ def run(ctx):
                 "group_by / group_by_nested (1..3 attributes) + unpack_group; entry paths: 8 paths x 2 containers x 11 element "
                 "kinds alone and in mixtures, handed over as list / tuple / generator (from_multiple also as one nested one-shot iterator); "
                 "call sequences = every behaviour of spec/ContainerSM.tla with one call (thorough: + 25%% of those with two), TLC-simulated "
-                "behaviours of 8 calls and seeded random histories of 2..10 calls (append / extend / += / + / *= / * / insert / "
+                "behaviours of 8 calls and seeded random histories of 2..10 calls (append / extend / += / + / reflected + / *= / * / insert / "
                 "__setitem__ / pop / reverse / copy / to_standard_list / slicing / filter / ==, refused objects included), every call "
                 "one validated event; non-trivial = distinct case" % (3 if thorough else 2))
     ctx.assumptions += ["elements are identified by object identity (repeated instances matched left to right)",
